@@ -6,7 +6,10 @@ LEVEL_TEXT["C12"] = (
     "per-sample recursion with a-priori output, e = d - y, and its flat _p[i*n+k] code is the matrix recursion "
     "g = Pu/(lambda+u^H P u), P' = (P - g u^H P)/lambda, w' = w + conj(g) e; locked: coefficients (and P) never change and "
     "y[k] = sum_j coeffs()[j] x(k-j) (over R and C, no conjugation). Over R: NLMS, leak 1, noise-free: squared misalignment changes by "
-    "exactly -mu e^2 (2(p+eps) - mu p)/(p+eps)^2 per sample, hence never increases for 0 < mu < 2, along every call of process. "
+    "exactly -mu e^2 (2(p+eps) - mu p)/(p+eps)^2 per sample, hence never increases for 0 < mu < 2, along every call of process (Props/C12More: the same for COMPLEX data, nlms_process_misalignment_le_complex). "
+    "T12.4 (Props/C12More) rls_is_wls / rls_process_is_wls: for every forgetting factor lambda > 0, every diagonal load delta > 0, every filter length and every real input/desired history, "
+    "the coefficient vector RlsFilter holds after the history is THE minimiser of the exponentially weighted, diagonally regularised least-squares cost "
+    "(Sherman-Morrison induction sm_inv / rls_step_invariant: P stays the inverse of the weighted Gram matrix, rls_run_minimiser: completing the square). "
     "Tie: executable model vs implementation, bit-exact on every emitted case (real/complex, lengths 2..64, step/leak/forgetting/"
     "diagonal-load grids, random lock schedules, framings incl. empty/1/len-1/len, size-mismatch throws, scale classes 1e-300..1e140 with denormal / "
     "negative-zero samples and boundary step sizes, one single call above 2^17 samples by digest). "
@@ -16,8 +19,8 @@ LEVEL_TEXT["C12"] = (
 )
 
 PROPS["C12"] = {
-    "gen": ["Cmplx"],
-    "lean_props": ["DspVerif.Props.C12", "DspVerif.Props.C12More"],
+    "gen": ["Cmplx", "StepsBase", "StepsArray", "StepsAdaptive"],
+    "lean_props": ["DspVerif.Props.C12", "DspVerif.Props.C12More", "DspVerif.Props.C12Gen"],
     "harness": [{"src": "c12.cpp", "cfg": "rel", "tol": {"lms": (1e-12, 0.0), "rls": (1e-9, 0.0)}}],
     "rule": "per type (real, complex) and filter (LMS, NLMS, RLS): boundary scenarios (zero input, locked from the start, empty calls, frames of len-1/len/len+1); "
             "random arbitrary input/desired pairs on horizons <= 3 len + 24 over lengths 2..64 (edge lengths 2,3,4,5,7,8,16,31,32,33,63,64 favoured), "
@@ -46,7 +49,7 @@ PROPS["C12"] = {
                  "long-double oracle: reference recursion, snapshot FIR check, batch normal equations (Cholesky), convergence runs",
     "level_note": "floating-point rounding is not modelled: the convergence bound 1e-6 and the agreement with the weighted least-squares solution are measured "
                   "(RLS forward error is judged against the conditioning of the weighted Gram matrix evaluated in the reference); "
-                  "T12.4 (RLS = weighted least squares by Sherman-Morrison induction) is not proved; the RLS update is proved to be the standard matrix recursion",
+                  "T12.4 (RLS = weighted least squares) is proved over the reals for real data; the complex RLS is proved to be the standard matrix recursion but its least-squares characterisation is not stated",
     "trusted_base": TB_COMMON + [
         "oracle references (long double recursion, Cholesky solver) in harness/c12.cpp",
         "convergence is a statistical statement about white input: checked on sampled realisations with horizons chosen from the "
